@@ -1,5 +1,6 @@
 from __future__ import annotations
 from abc import abstractmethod
+import re
 import typing
 from typing import Tuple
 
@@ -708,6 +709,18 @@ class VhdlScope:
             for scope in self._subscopes:
                 scope.remove_declaration(obj)
 
+    @staticmethod
+    def _valid_identifier(name: str, fallback: str | None) -> str:
+        # VHDL identifiers consist of letters, digits and single underscores,
+        # they start with a letter and do not end with an underscore
+        name = re.sub("[^a-zA-Z0-9]+", "_", name).strip("_")
+
+        if len(name) == 0 or not name[0].isalpha():
+            prefix = "obj" if fallback is None else fallback
+            name = prefix if len(name) == 0 else f"{prefix}_{name}"
+
+        return name
+
     def complete_setup(self):
         assert not self._setup_complete
 
@@ -779,9 +792,7 @@ class VhdlScope:
             else:
                 raise AssertionError("Internal error, cannot name object")
 
-            # remove leading and trailing underscores
-            # since they are not allowed in vhdl
-            name = name.strip("_")
+            name = self._valid_identifier(name, fallback)
 
             # avoid name collisions by appending counter to names
             if name.lower() in used_names:
